@@ -718,6 +718,23 @@ ElemAttribute::execute(StylesheetExecutionContext&  executionContext) const
 
 
 
+void
+ElemAttribute::namespacesPostConstruction(
+            StylesheetConstructionContext&  constructionContext,
+            const NamespacesHandler&        theParentHandler,
+            NamespacesHandler&              theHandler)
+{
+    // As for xsl:element, do not process namespace aliases: xsl:namespace-alias
+    // only affects literal result elements and their attributes.
+    theHandler.postConstruction(
+            constructionContext,
+            false,
+            getElementName(),
+            &theParentHandler);
+}
+
+
+
 bool
 ElemAttribute::childTypeAllowed(int     xslToken) const
 {
